@@ -808,6 +808,35 @@ fn t_bind_enabled_id_of_own_request() {
     core::mem::forget((rb, w));
 }
 
+/// the same with the id of an established stream of the endpoint: the request is delivered, nothing
+/// is answered by the endpoint, and the stream keeps its queue, credit and state
+#[cfg_attr(kani, kani::proof)]
+#[cfg_attr(kani, kani::stub(catch_unwind, call_through))]
+#[cfg_attr(kani, kani::unwind(6))]
+#[cfg_attr(verif_replay, test)]
+fn t_bind_enabled_id_of_stream() {
+    let mut w = world(4, 2, true, 1);
+    let mut sb = bystander_established(&w);
+    let port: u16 = kani::any();
+    let r = poll_once(w.task.process_frame(bind_frame(B, BindType::Datagram, b"ho", port), false));
+    assert!(matches!(r, Poll::Ready(Ok(()))), "C15.bind.stream_id.ok");
+    core::mem::forget(r);
+    assert!(out_empty(&mut w.tx_msg_rx), "C15.bind.stream_id.no_auto_answer: a Bind under the id of an own stream is not rejected by the endpoint");
+    let brx = w.bnd_rx.as_mut().unwrap();
+    assert!(brx.len() == 1, "C15.bind.stream_id.delivered: the request reaches the application");
+    let got = brx.try_recv();
+    match &got {
+        Ok(req) => {
+            assert!(req.flow_id() == B && req.port() == port, "C15.bind.stream_id.fields");
+            assert!((req.bind_type() as u8) == (BindType::Datagram as u8), "C15.bind.stream_id.type");
+        }
+        Err(_) => assert!(false, "C15.bind.stream_id.delivered2"),
+    }
+    core::mem::forget(got);
+    assert!(table_len(&w) == 1 && bystander_established_untouched(&w, &mut sb), "C15+C10.bind.stream_id.frame: the stream with that id keeps queue, credit and state");
+    core::mem::forget((sb, w));
+}
+
 /// during teardown (ignore_bind) a Bind is dropped silently
 #[cfg_attr(kani, kani::proof)]
 #[cfg_attr(kani, kani::stub(catch_unwind, call_through))]
